@@ -311,6 +311,10 @@ def gen(rnd, *, core=False, res_choices=(60, 60, 30, 15), subslot=True, alap=Non
                 c["start"] = base + timedelta(days=rnd.randrange(0, 7), minutes=rnd.randrange(0, 24 * 60, res))
             if tasklimits and rnd.random() < 0.3:
                 c["limits"] = {rnd.choice(["dailymax", "weeklymax"]): rnd.choice([1, 2, 3, 4])}
+            if rnd.random() < 0.12:
+                # a date on the container itself: a deadline for ALAP children, an annotation in forward mode - the
+                # container's reported end must still be the latest child end (seeded change C10-b)
+                c["end"] = base + timedelta(days=span_days - rnd.randrange(0, min(5, span_days)), minutes=rnd.choice([0, 0, 17 * 60]))
             if rnd.random() < prios * 0.3:
                 c["priority"] = rnd.choice([1, 100, 300, 500, 700, 1000])
             tasks.append(c)
